@@ -16,7 +16,9 @@ open Mdsort Mdsort.Model
 /-- The name buffer can hold `new` and `cur` (3 characters and the terminator). -/
 def Sane (L : Limits) : Prop := L.nameMax1.fits 3 = true
 
-theorem sane_std : Sane stdLimits := by unfold Sane; decide
+instance (L : Limits) : Decidable (Sane L) := inferInstanceAs (Decidable (_ = true))
+
+theorem sane_std : Sane stdLimits := by decide
 theorem sane_unbounded : Sane Limits.unbounded := rfl
 
 theorem Sane.of_le {L L' : Limits} (h : L ≤ L') (hs : Sane L) : Sane L' := Lim.fits_mono h.2.1 hs
